@@ -1,7 +1,6 @@
 package exec
 
 import (
-	"unicode/utf8"
 	"crypto/sha256"
 	"encoding/base64"
 	"encoding/hex"
@@ -11,10 +10,12 @@ import (
 	"go/token"
 	"go/types"
 	"path/filepath"
+	"reflect"
 	"regexp"
 	"strconv"
 	"strings"
 	"unicode"
+	"unicode/utf8"
 
 	"bklsym/sym"
 
@@ -1322,34 +1323,34 @@ func fFilepathJoin(m *Machine, fr *frame, pos token.Pos, args []value) value {
 
 func init() {
 	foreignTab = map[string]foreignFn{
-		"fmt.Errorf":                fErrorf,
-		"fmt.Sprintf":               fSprintf,
-		"log.Printf":                fNoop,
-		"strings.HasPrefix":         fHasPrefix,
-		"strings.HasSuffix":         fHasSuffix,
-		"strings.TrimPrefix":        fTrimPrefix,
-		"strings.TrimSuffix":        fTrimSuffix,
-		"strings.ReplaceAll":        fReplaceAll,
-		"strings.Replace":           fReplace,
-		"strings.Contains":          fContains,
-		"strings.Split":             fSplit,
-		"strings.SplitN":            fSplitN,
-		"strings.Count":             fCount,
-		"strings.Join":              fJoin,
-		"maps.Clone":                fMapsClone,
-		"maps.Keys":                 fMapsKeys,
-		"slices.Sorted":             fSlicesSorted,
-		"slices.Clone":              fSlicesClone,
+		"fmt.Errorf":                    fErrorf,
+		"fmt.Sprintf":                   fSprintf,
+		"log.Printf":                    fNoop,
+		"strings.HasPrefix":             fHasPrefix,
+		"strings.HasSuffix":             fHasSuffix,
+		"strings.TrimPrefix":            fTrimPrefix,
+		"strings.TrimSuffix":            fTrimSuffix,
+		"strings.ReplaceAll":            fReplaceAll,
+		"strings.Replace":               fReplace,
+		"strings.Contains":              fContains,
+		"strings.Split":                 fSplit,
+		"strings.SplitN":                fSplitN,
+		"strings.Count":                 fCount,
+		"strings.Join":                  fJoin,
+		"maps.Clone":                    fMapsClone,
+		"maps.Keys":                     fMapsKeys,
+		"slices.Sorted":                 fSlicesSorted,
+		"slices.Clone":                  fSlicesClone,
 		"golang.org/x/exp/slices.Clone": fSlicesClone,
-		"errors.Is":                 fErrorsIs,
-		"errors.Join":               fErrorsJoin,
-		"errors.New":                fErrorsNew,
-		"gopkg.in/yaml.v3.Marshal":   fYamlMarshal,
-		"gopkg.in/yaml.v3.Unmarshal": fYamlUnmarshal,
-		"os.Getenv":                 fGetenv,
-		"os.Environ":                fEnviron,
-		"strconv.ParseBool":         fParseBool,
-		"strconv.ParseInt":          fParseInt,
+		"errors.Is":                     fErrorsIs,
+		"errors.Join":                   fErrorsJoin,
+		"errors.New":                    fErrorsNew,
+		"gopkg.in/yaml.v3.Marshal":      fYamlMarshal,
+		"gopkg.in/yaml.v3.Unmarshal":    fYamlUnmarshal,
+		"os.Getenv":                     fGetenv,
+		"os.Environ":                    fEnviron,
+		"strconv.ParseBool":             fParseBool,
+		"strconv.ParseInt":              fParseInt,
 		"strconv.FormatFloat": func(m *Machine, fr *frame, pos token.Pos, args []value) value {
 			if sv, ok := args[0].(symv); ok && sv.K == types.Float64 {
 				f, okf := args[1].(uint8)
@@ -1369,14 +1370,14 @@ func init() {
 			}
 			return m.callNativeGeneric("strconv.FormatInt", strconv.FormatInt, pos, args)
 		},
-		"strconv.ParseFloat":        fParseFloat,
-		"(*gopkg.in/yaml.v3.Node).ShortTag": fYamlShortTag,
-		"path/filepath.Base":        fFilepathBase,
-		"path/filepath.Dir":         fFilepathDir,
-		"path/filepath.Ext":         fFilepathExt,
-		"path/filepath.Join":        fFilepathJoin,
-		"unicode.IsLower":           fIsLower,
-		"regexp.MustCompile":        fRegexpMustCompile,
+		"strconv.ParseFloat":                         fParseFloat,
+		"(*gopkg.in/yaml.v3.Node).ShortTag":          fYamlShortTag,
+		"path/filepath.Base":                         fFilepathBase,
+		"path/filepath.Dir":                          fFilepathDir,
+		"path/filepath.Ext":                          fFilepathExt,
+		"path/filepath.Join":                         fFilepathJoin,
+		"unicode.IsLower":                            fIsLower,
+		"regexp.MustCompile":                         fRegexpMustCompile,
 		"(*encoding/base64.Encoding).EncodeToString": fB64EncodeToString,
 		"crypto/sha256.New": func(m *Machine, fr *frame, pos token.Pos, args []value) value {
 			return iface{t: m.shared.errorT, v: opaque{kind: "sha256", payload: &shaState{}}}
@@ -1440,8 +1441,12 @@ func init() {
 		"fmt.Fprintln": func(m *Machine, fr *frame, pos token.Pos, args []value) value { return tuple{0, iface{}} },
 		"fmt.Print":    func(m *Machine, fr *frame, pos token.Pos, args []value) value { return tuple{0, iface{}} },
 		"fmt.Println":  func(m *Machine, fr *frame, pos token.Pos, args []value) value { return tuple{0, iface{}} },
-		"fmt.Sprint":   func(m *Machine, fr *frame, pos token.Pos, args []value) value { return m.sprint(variadic(args[0]), false) },
-		"fmt.Sprintln": func(m *Machine, fr *frame, pos token.Pos, args []value) value { return m.sprint(variadic(args[0]), true) },
+		"fmt.Sprint": func(m *Machine, fr *frame, pos token.Pos, args []value) value {
+			return m.sprint(variadic(args[0]), false)
+		},
+		"fmt.Sprintln": func(m *Machine, fr *frame, pos token.Pos, args []value) value {
+			return m.sprint(variadic(args[0]), true)
+		},
 		"(io/fs.FileMode).IsDir": func(m *Machine, fr *frame, pos token.Pos, args []value) value {
 			u, _ := intBits(args[0])
 			return u&(1<<31) != 0
@@ -1458,11 +1463,79 @@ func init() {
 			u, _ := intBits(args[0])
 			return uint32(u) & 0o777
 		},
-		"sort.Slice":       fSortSlice,
-		"sort.SliceStable": fSortSlice,
-		"golang.org/x/exp/utf8string.NewString":             fUtf8NewString,
-		"(*golang.org/x/exp/utf8string.String).RuneCount":   fUtf8RuneCount,
-		"(*golang.org/x/exp/utf8string.String).At":          fUtf8At,
+		// sync: the engine runs one goroutine, so locks are no-ops; Once runs
+		// its function once per path; a Pool hands out a fresh object on
+		// every Get (Put is dropped): whatever the pooled object carried
+		// over from an earlier use is not modelled here - the native replay
+		// sees it
+		"(*sync.Mutex).Lock":      fNop,
+		"(*sync.Mutex).Unlock":    fNop,
+		"(*sync.Mutex).TryLock":   func(m *Machine, fr *frame, pos token.Pos, args []value) value { return true },
+		"(*sync.RWMutex).Lock":    fNop,
+		"(*sync.RWMutex).Unlock":  fNop,
+		"(*sync.RWMutex).RLock":   fNop,
+		"(*sync.RWMutex).RUnlock": fNop,
+		"(*sync.Once).Do": func(m *Machine, fr *frame, pos token.Pos, args []value) value {
+			p, _ := args[0].(*value)
+			if m.onceDone == nil {
+				m.onceDone = map[*value]bool{}
+			}
+			if !m.onceDone[p] {
+				m.onceDone[p] = true
+				m.call(fr, pos, args[1], nil)
+			}
+			return nil
+		},
+		"(*sync.Pool).Put": fNop,
+		"(*sync.Pool).Get": func(m *Machine, fr *frame, pos token.Pos, args []value) value {
+			p, _ := args[0].(*value)
+			if p == nil {
+				unsupported("sync.Pool.Get on nil")
+			}
+			st, ok := (*p).(structure)
+			if !ok || len(st) == 0 {
+				unsupported("sync.Pool layout")
+			}
+			newFn := st[len(st)-1] // New is the last field
+			if newFn == nil {
+				return iface{}
+			}
+			if cl, ok := newFn.(*closure); ok && cl == nil {
+				return iface{}
+			}
+			return m.call(fr, pos, newFn, nil)
+		},
+		"reflect.ValueOf": func(m *Machine, fr *frame, pos token.Pos, args []value) value {
+			return opaque{kind: "reflectvalue", payload: args[0]}
+		},
+		"(reflect.Value).Pointer": func(m *Machine, fr *frame, pos token.Pos, args []value) value {
+			o, ok := args[0].(opaque)
+			if !ok {
+				unsupported("reflect.Value receiver %T", args[0])
+			}
+			v := o.payload
+			if i, ok := v.(iface); ok {
+				v = i.v
+			}
+			switch x := v.(type) {
+			case *symMap:
+				if x == nil {
+					return uintptr(0)
+				}
+				return uintptr(reflect.ValueOf(x).Pointer())
+			case []value:
+				return uintptr(reflect.ValueOf(x).Pointer())
+			case *value:
+				return uintptr(reflect.ValueOf(x).Pointer())
+			}
+			unsupported("reflect.Value.Pointer of %T", v)
+			return nil
+		},
+		"sort.Slice":                                      fSortSlice,
+		"sort.SliceStable":                                fSortSlice,
+		"golang.org/x/exp/utf8string.NewString":           fUtf8NewString,
+		"(*golang.org/x/exp/utf8string.String).RuneCount": fUtf8RuneCount,
+		"(*golang.org/x/exp/utf8string.String).At":        fUtf8At,
 	}
 }
 
@@ -1522,6 +1595,8 @@ func fSortSlice(m *Machine, fr *frame, pos token.Pos, args []value) value {
 	}
 	return nil
 }
+
+func fNop(m *Machine, fr *frame, pos token.Pos, args []value) value { return nil }
 
 func opaquePtr(kind string, payload any) *value {
 	p := new(value)
